@@ -18,7 +18,7 @@ func init() {
 	register(&Property{
 		ID:        "C03",
 		Title:     "Each local endpoint gets exactly its matching policies, correctly ordered",
-		Technique: "static analysis: field read-set closure of the btree comparators, operand-side slicing of ordering comparisons, constant evaluation of tie-break join formats, cut-set guard analysis, mirror-index pairing (dominance/post-dominance), value provenance of the sorted tier list",
+		Technique: "static analysis: field read-set closure of the btree comparators, operand-side slicing of ordering comparisons, constant evaluation of tie-break join formats, cut-set guard analysis, mirror-index pairing (dominance/post-dominance), value provenance of the sorted tier list, path enumeration with a truth-table decision of branch conditions (sort-key refresh), guard/order analysis of the label-inheritance parent registry",
 		DesignRef: "DESIGN.md §3 C03",
 		Explanation: "Decides the structural clauses on PolicySorter / PolicyResolver / tier conversion. (total) Each comparator handed to btree.NewG in felix/calc reads, from both of its arguments, every field of its key type " +
 			"(model.PolicyKey via PolKV, tierInfoKey) and the Order it sorts by: two distinct policies or tiers can never compare equal and displace each other in the tree. (ascending) Every ordering comparison in those " +
@@ -27,8 +27,10 @@ func init() {
 			"(dirsplit) Appends to proto.TierInfo.IngressPolicies/EgressPolicies are guarded by GovernsIngress()/GovernsEgress(), which test exactly the ingress/egress flag, and the flags are set only under the matching " +
 			"Types comparison or when Types is empty. (mirror) policyIDToEndpointIDs and endpointIDToPolicyIDs are always updated together with swapped arguments, and the per-endpoint filter keeps a policy only under " +
 			"endpointIDToPolicyIDs.Contains(endpoint, policy). (sortfeeds) sortedTierData is assigned only from PolicySorter.Sorted(); the per-endpoint lists are appended only inside range loops over sortedTierData / " +
-			"OrderedPolicies; Sorted() fills its slices only inside btree Ascend callbacks; OrderedPolicies has no other writer.",
-		NotDecided: "That selector evaluation and label inheritance pick exactly the matching endpoints (C07); antisymmetry/transitivity of the comparators beyond the direction of each comparison; nil-Order handling of TierLess; that only policies applying to a local endpoint are sent (C02 families).",
+			"OrderedPolicies; Sorted() fills its slices only inside btree Ascend callbacks; OrderedPolicies has no other writer. " +
+			"(keysync) Wherever a *model.Tier value is at hand and a tierInfoKey is (re-)inserted into the sorted-tier tree, each mutable key field of the TierInfo (Order, Valid; derived from the tierInfoKey struct) has been stored from its source (the Tier's same-named field, or a constant) on the path, or the branch conditions crossed imply that it already equals the source (same pointer, equal pointees, or both nil) — so no update of a tier's order, including value -> nil, can be ignored. " +
+			"(inheritreg) The plumbing that makes inherited labels reach an endpoint: a parent (profile) entry is deleted from the registry only when it has neither children nor labels; when an item's parents are updated the item is unregistered from / the registry entry dropped for an old parent only if that parent is not among the new parents (membership test with the same projection on both sides) or after re-registration; the item's parent list only holds registry objects.",
+		NotDecided: "That selector evaluation picks exactly the matching endpoints (C07); antisymmetry/transitivity of the comparators beyond the direction of each comparison; nil-Order handling of TierLess; that only policies applying to a local endpoint are sent (C02 families).",
 		Assumptions: []string{
 			"go/types + go/ssa (x/tools v0.50.0) model of the current source, CGO_ENABLED=0 build",
 			"github.com/google/btree: NewG(less) orders by less, Ascend visits in ascending order, ReplaceOrInsert replaces an item that compares equal",
@@ -79,6 +81,22 @@ func init() {
 				Old: "\t\t\tif pr.endpointIDToPolicyIDs.Contains(endpointID, polKV.Key) {\n", New: "\t\t\tif pr.policyIDToEndpointIDs.ContainsKey(polKV.Key) {\n", Expect: "C03.mirror/filter/"},
 			{Name: "tier list taken from the unsorted tier map", File: "felix/calc/policy_resolver.go",
 				Old: "\tfor _, tier := range pr.sortedTierData {\n", New: "\tfor _, tier := range pr.policySorter.tiers {\n", Expect: "C03.sortfeeds/range/"},
+			{Name: "tier order refreshed only when the new order is set (value -> nil ignored)", File: "felix/calc/policy_sorter.go",
+				Old: "\t\t\tif tierInfo.Order != newTier.Order {\n", New: "\t\t\tif newTier.Order != nil && (tierInfo.Order == nil || *tierInfo.Order != *newTier.Order) {\n", Expect: "C03.keysync/PolicySorter.OnUpdate/TierInfo.Order"},
+			{Name: "tier order taken from the first update only", File: "felix/calc/policy_sorter.go",
+				Old: "\t\t\tif tierInfo.Order != newTier.Order {\n", New: "\t\t\tif tierInfo.Order == nil {\n", Expect: "C03.keysync/PolicySorter.OnUpdate/TierInfo.Order"},
+			{Name: "tier order compared by value but a nil new order dereferenced lazily (nil vs non-nil treated as equal)", File: "felix/calc/policy_sorter.go",
+				Old: "\t\t\tif tierInfo.Order != newTier.Order {\n", New: "\t\t\tif tierInfo.Order != nil && newTier.Order != nil && *tierInfo.Order != *newTier.Order {\n", Expect: "C03.keysync/PolicySorter.OnUpdate/TierInfo.Order"},
+			{Name: "re-created tier keeps Valid == false in its sort key", File: "felix/calc/policy_sorter.go",
+				Old: "\t\t\ttierInfo.Valid = true\n", New: "", Expect: "C03.keysync/PolicySorter.OnUpdate/TierInfo.Valid"},
+			{Name: "item removed from every old parent, still-current ones included (parent dropped while referenced)", File: "felix/labelindex/label_inheritance_index.go",
+				Old: "\t\tif currentParentIDs.Contains(parent.id) {\n\t\t\t// Make sure we don't delete current parents from the index.\n\t\t\tcontinue\n\t\t}\n", New: "", Expect: "C03.inheritreg/drop/InheritIndex.onItemParentsUpdate"},
+			{Name: "current-parent set filled with pointers but queried with ids", File: "felix/labelindex/label_inheritance_index.go",
+				Old: "\t\tcurrentParentIDs.Add(parentData.id)\n", New: "\t\tcurrentParentIDs.Add(parentData)\n", Expect: "C03.inheritreg/drop/InheritIndex.onItemParentsUpdate"},
+			{Name: "parent with labels but no children forgotten", File: "felix/labelindex/label_inheritance_index.go",
+				Old: "\tif parent.itemIDs == nil && parent.labels.IsNil() {\n", New: "\tif parent.itemIDs == nil || parent.labels.IsNil() {\n", Expect: "C03.inheritreg/delete/InheritIndex.discardParentIfEmpty"},
+			{Name: "item references a private parent object instead of the registered one", File: "felix/labelindex/label_inheritance_index.go",
+				Old: "\t\t\tparents[i] = idx.getOrCreateParent(pID)\n", New: "\t\t\tparents[i] = &parentData{id: pID}\n", Expect: "C03.inheritreg/refs/InheritIndex.UpdateLabels"},
 			{Name: "sorted tiers produced by a descending walk", File: "felix/calc/policy_sorter.go",
 				Old: "\t\tpoc.sortedTiers.Ascend(func(t tierInfoKey) bool {", New: "\t\tpoc.sortedTiers.Descend(func(t tierInfoKey) bool {", Expect: "C03.sortfeeds/ascend/"},
 		},
@@ -98,6 +116,8 @@ func runC03(c *Ctx) {
 	c.Rule("C03.unsetlast", "E-CONST/E-GUARD", "policy without Order is given polMetaDefaultOrder = math.Inf(+), a variable no function reassigns", 1)
 	c.Rule("C03.dirsplit", "E-GUARD", "ingress/egress lists appended only under GovernsIngress/GovernsEgress; those test exactly their flag; flags set only under the matching Types comparison or empty Types", 7)
 	c.Rule("C03.mirror", "E-PAIR/E-GUARD", "the two policy<->endpoint multidicts of PolicyResolver are updated together with swapped arguments; per-endpoint policy filter is Contains(endpoint, policy) on the endpoint-keyed one", 5)
+	c.Rule("C03.keysync", "E-FLOW/E-GUARD", "wherever a *model.Tier value is at hand and a tierInfoKey is (re-)inserted into the sorted tree, each mutable key field of the TierInfo (Order, Valid) was stored from its source on the path, or the path's branch conditions imply field == source (same pointer, equal pointees, both nil)", 2)
+	c.Rule("C03.inheritreg", "E-GUARD/E-ORDER/E-FLOW", "label inheritance plumbing (shared with C07.parentreg): a parent registry entry is deleted only when it has no children and no labels; an item is unregistered from / the registry entry dropped for an old parent only if that parent is not among the item's new parents (or after re-registration); an item's parent list holds registry objects only", 4)
 	c.Rule("C03.sortfeeds", "E-FLOW/E-OWN", "sortedTierData only from PolicySorter.Sorted(); per-endpoint appends only under range over sortedTierData/OrderedPolicies; Sorted() appends only inside Ascend callbacks; OrderedPolicies has no other writer", 6)
 
 	cmps := c03Comparators(c, p)
@@ -109,6 +129,8 @@ func runC03(c *Ctx) {
 	c03DirSplit(c, p)
 	c03Mirror(c, p)
 	c03SortFeeds(c, p)
+	c03KeySync(c, p)
+	c07ParentReg(c, p, "C03.inheritreg")
 }
 
 // ------------------------------------------------------------ comparators --
@@ -1256,4 +1278,579 @@ func c03RecvTypeName(f *ssa.Function) string {
 		return recvTypeName(o)
 	}
 	return ""
+}
+
+// ---------------------------------------------------------------- keysync --
+
+// c03KeySync: the sorted-tier btree is keyed by tierInfoKey, whose fields are
+// copies of the TierInfo's fields.  Wherever a *model.Tier value is at hand and
+// a tier key is (re-)inserted into that tree, every mutable key field of the
+// TierInfo must reflect the Tier value: on each path to the insertion the field
+// was stored from its source, or the path's branch conditions establish that
+// the field already equals the source (same pointer, equal pointees, or both
+// nil).  A bypass that looks at one side only ("new order is non-nil") lets an
+// update through without refreshing the key, and the tier keeps a stale rank.
+func c03KeySync(c *Ctx, p *Prog) {
+	keyTN, _ := p.LookupObj(calcPkg, "tierInfoKey").(*types.TypeName)
+	tiTN, _ := p.LookupObj(calcPkg, "TierInfo").(*types.TypeName)
+	tierTN, _ := p.LookupExt("libcalico-go/lib/backend/model", "Tier").(*types.TypeName)
+	if keyTN == nil || tiTN == nil || tierTN == nil {
+		c.Lost("calc.tierInfoKey / calc.TierInfo / model.Tier")
+	}
+	tiST, _ := tiTN.Type().Underlying().(*types.Struct)
+	tierST, _ := tierTN.Type().Underlying().(*types.Struct)
+	if tiST == nil || tierST == nil {
+		c.Lost("TierInfo / model.Tier are not structs")
+	}
+	fieldNamed := func(st *types.Struct, name string) *types.Var {
+		for i := 0; i < st.NumFields(); i++ {
+			if st.Field(i).Name() == name {
+				return st.Field(i)
+			}
+		}
+		return nil
+	}
+	// key fields and the TierInfo fields they mirror
+	var keyFields []*types.Var
+	for _, name := range structFieldNames(keyTN.Type(), false) {
+		fv := fieldNamed(tiST, name)
+		if fv == nil {
+			c.Lost("tierInfoKey.%s has no TierInfo field of the same name to be copied from", name)
+		}
+		keyFields = append(keyFields, fv)
+	}
+	// mutable = stored somewhere outside the initialisation of a fresh TierInfo
+	mutable := map[*types.Var]bool{}
+	for _, f := range p.AllFuncs() {
+		allInstrs(f, false, func(_ *ssa.Function, in ssa.Instruction) {
+			st, ok := in.(*ssa.Store)
+			if !ok {
+				return
+			}
+			fa, ok := st.Addr.(*ssa.FieldAddr)
+			if !ok {
+				return
+			}
+			if _, fresh := fa.X.(*ssa.Alloc); fresh {
+				return
+			}
+			mutable[structField(fa.X.Type(), fa.Field)] = true
+		})
+	}
+	isTierPtr := func(t types.Type) bool {
+		pt, ok := types.Unalias(t).(*types.Pointer)
+		return ok && types.Identical(types.Unalias(pt.Elem()), tierTN.Type())
+	}
+	isKeyInsert := func(cc *ssa.CallCommon) bool {
+		f := calleeOf(cc)
+		if f == nil || f.Pkg() == nil || f.Pkg().Path() != c03BtreePkg || f.Name() != "ReplaceOrInsert" || len(cc.Args) < 1 {
+			return false
+		}
+		pt, ok := types.Unalias(cc.Args[0].Type()).(*types.Pointer)
+		if !ok {
+			return false
+		}
+		n, ok := types.Unalias(pt.Elem()).(*types.Named)
+		return ok && n.TypeArgs().Len() == 1 && types.Identical(types.Unalias(n.TypeArgs().At(0)), keyTN.Type())
+	}
+	// inserts: the insertion itself, or a call of a felix/calc helper that performs it
+	var insertsVia func(sf *ssa.Function, depth int) bool
+	insertsVia = func(sf *ssa.Function, depth int) bool {
+		if sf == nil || sf.Blocks == nil || depth > 2 || sf.Pkg == nil || !strings.HasSuffix(sf.Pkg.Pkg.Path(), "/"+calcPkg) {
+			return false
+		}
+		found := false
+		allInstrs(sf, true, func(_ *ssa.Function, in ssa.Instruction) {
+			if ci, ok := in.(ssa.CallInstruction); ok {
+				if isKeyInsert(ci.Common()) || insertsVia(calleeFn(ci.Common()), depth+1) {
+					found = true
+				}
+			}
+		})
+		return found
+	}
+	// storesVia: a call of a felix/calc helper that stores TierInfo.<fv> of an existing object
+	var storesVia func(sf *ssa.Function, fv *types.Var, depth int) bool
+	storesVia = func(sf *ssa.Function, fv *types.Var, depth int) bool {
+		if sf == nil || sf.Blocks == nil || depth > 2 || sf.Pkg == nil || !strings.HasSuffix(sf.Pkg.Pkg.Path(), "/"+calcPkg) {
+			return false
+		}
+		found := false
+		allInstrs(sf, true, func(_ *ssa.Function, in ssa.Instruction) {
+			switch x := in.(type) {
+			case *ssa.Store:
+				if fa, ok := x.Addr.(*ssa.FieldAddr); ok && structField(fa.X.Type(), fa.Field) == fv {
+					if _, fresh := fa.X.(*ssa.Alloc); !fresh {
+						found = true
+					}
+				}
+			case ssa.CallInstruction:
+				if storesVia(calleeFn(x.Common()), fv, depth+1) {
+					found = true
+				}
+			}
+		})
+		return found
+	}
+
+	n := 0
+	var fns []*ssa.Function
+	for _, f := range p.AllFuncs() {
+		if f.Blocks != nil && f.Pkg != nil && strings.HasSuffix(f.Pkg.Pkg.Path(), "/"+calcPkg) {
+			fns = append(fns, f)
+		}
+	}
+	sort.Slice(fns, func(i, j int) bool { return fnName(fns[i]) < fnName(fns[j]) })
+	for _, fn := range fns {
+		// Tier values at hand
+		var tierVals []ssa.Value
+		for _, par := range fn.Params {
+			if isTierPtr(par.Type()) {
+				tierVals = append(tierVals, par)
+			}
+		}
+		allInstrs(fn, false, func(_ *ssa.Function, in ssa.Instruction) {
+			if ta, ok := in.(*ssa.TypeAssert); ok && isTierPtr(ta.AssertedType) {
+				tierVals = append(tierVals, ta)
+			}
+		})
+		if len(tierVals) == 0 {
+			continue
+		}
+		var targets []ssa.Instruction
+		allInstrs(fn, false, func(_ *ssa.Function, in ssa.Instruction) {
+			ci, ok := in.(ssa.CallInstruction)
+			if !ok || !(isKeyInsert(ci.Common()) || insertsVia(calleeFn(ci.Common()), 1)) {
+				return
+			}
+			for _, tv := range tierVals {
+				if _, isPar := tv.(*ssa.Parameter); isPar {
+					targets = append(targets, in)
+					return
+				}
+				if ti, ok := tv.(ssa.Instruction); ok && instrDominates(ti, in) {
+					targets = append(targets, in)
+					return
+				}
+			}
+		})
+		if len(targets) == 0 {
+			continue
+		}
+		for _, fv := range keyFields {
+			if !mutable[fv] {
+				continue // identity part of the key: set once when the TierInfo is created
+			}
+			n++
+			key := "C03.keysync/" + fnName(fn) + "/TierInfo." + fv.Name()
+			site := p.Pos(targets[0].Pos())
+			ks := c03NewKeySync(fn, targets, fv, fieldNamed(tierST, fv.Name()), tierST, storesVia)
+			if ks.problem != "" {
+				c.Undecided(key, site, "%s: %s", fnName(fn), ks.problem)
+				continue
+			}
+			if len(ks.syncs) == 0 {
+				c.Violate(key, site, "%s (re-)inserts the tier's sort key while a Tier value is at hand but never stores TierInfo.%s from it: the key keeps whatever %s the TierInfo had before the update", fnName(fn), fv.Name(), fv.Name())
+				continue
+			}
+			var bad, und []string
+			for _, t := range targets {
+				b, u := ks.check(t)
+				for _, s := range b {
+					bad = append(bad, fmt.Sprintf("insertion at %s reached %s", p.Pos(t.Pos()), s))
+				}
+				for _, s := range u {
+					und = append(und, fmt.Sprintf("insertion at %s: %s", p.Pos(t.Pos()), s))
+				}
+			}
+			switch {
+			case len(bad) > 0:
+				c.Violate(key, site, "%s re-inserts the tier's sort key on a path where TierInfo.%s was neither stored from %s nor shown to equal it — %s: an update that changes %s on that path is ignored and the tier keeps its stale position among the sorted tiers",
+					fnName(fn), fv.Name(), ks.srcDesc, strings.Join(bad, "; "), fv.Name())
+			case len(und) > 0:
+				c.Undecided(key, site, "%s", strings.Join(und, "; "))
+			default:
+				c.Ok(key, site, "on every path to %d key insertion(s) TierInfo.%s is stored from %s or already equal to it", len(targets), fv.Name(), ks.srcDesc)
+			}
+		}
+	}
+	if n == 0 {
+		c.Lost("no function of felix/calc that (re-)inserts a tierInfoKey into the sorted tree with a *model.Tier value at hand")
+	}
+}
+
+// c03KS decides, for one function and one TierInfo field, whether a path that
+// bypasses every store of the field establishes "field == source".
+type c03KS struct {
+	fn       *ssa.Function
+	fv       *types.Var     // TierInfo.<F>
+	srcField *types.Var     // model.Tier.<F> (nil: constant source)
+	srcConst constant.Value // constant source
+	srcDesc  string
+	syncs    map[ssa.Instruction]bool
+	problem  string
+}
+
+// c03Level: v reads struct field fv; level 1 = the field's value, 2 = the
+// pointee of a pointer-typed field.
+func c03Level(v ssa.Value) (*types.Var, int) {
+	n := 0
+	for {
+		switch x := v.(type) {
+		case *ssa.UnOp:
+			if x.Op != token.MUL {
+				return nil, 0
+			}
+			n++
+			v = x.X
+		case *ssa.FieldAddr:
+			return structField(x.X.Type(), x.Field), n
+		case *ssa.Field:
+			return structField(x.X.Type(), x.Field), n + 1
+		default:
+			return nil, 0
+		}
+	}
+}
+
+func c03NewKeySync(fn *ssa.Function, targets []ssa.Instruction, fv, tierField *types.Var, tierST *types.Struct, storesVia func(*ssa.Function, *types.Var, int) bool) *c03KS {
+	ks := &c03KS{fn: fn, fv: fv, syncs: map[ssa.Instruction]bool{}}
+	isTierField := func(v *types.Var) bool {
+		for i := 0; i < tierST.NumFields(); i++ {
+			if tierST.Field(i) == v {
+				return true
+			}
+		}
+		return false
+	}
+	allInstrs(fn, false, func(_ *ssa.Function, in ssa.Instruction) {
+		// only what can happen before one of the insertions matters
+		relevant := false
+		for _, t := range targets {
+			if in != t && instrReaches(in, t) {
+				relevant = true
+			}
+		}
+		if !relevant {
+			return
+		}
+		switch x := in.(type) {
+		case *ssa.Store:
+			fa, ok := x.Addr.(*ssa.FieldAddr)
+			if !ok || structField(fa.X.Type(), fa.Field) != fv {
+				return
+			}
+			if _, fresh := fa.X.(*ssa.Alloc); fresh {
+				return
+			}
+			if cv, ok := constOf(x.Val); ok && !isNilConst(x.Val) {
+				if ks.srcField != nil || (ks.srcConst != nil && !constant.Compare(ks.srcConst, token.EQL, cv)) {
+					ks.problem = "TierInfo." + fv.Name() + " is stored from different sources"
+				}
+				ks.srcConst, ks.srcDesc = cv, "the constant "+cv.ExactString()
+				ks.syncs[in] = true
+				return
+			}
+			sf, lvl := c03Level(x.Val)
+			if sf == nil || lvl != 1 || !isTierField(sf) || (tierField != nil && sf != tierField) {
+				ks.problem = fmt.Sprintf("TierInfo.%s is stored from %s, which is not a constant or the Tier value's field", fv.Name(), path(x.Val))
+				return
+			}
+			if ks.srcConst != nil || (ks.srcField != nil && ks.srcField != sf) {
+				ks.problem = "TierInfo." + fv.Name() + " is stored from different sources"
+			}
+			ks.srcField, ks.srcDesc = sf, "Tier."+sf.Name()
+			ks.syncs[in] = true
+		case ssa.CallInstruction:
+			if storesVia(calleeFn(x.Common()), fv, 1) {
+				ks.syncs[in] = true
+				if ks.srcDesc == "" {
+					ks.srcDesc = "the Tier value (in " + fnName(calleeFn(x.Common())) + ")"
+				}
+			}
+		}
+	})
+	return ks
+}
+
+// atoms of the little decision procedure
+const (
+	c03AtomPtrEq  = 1 << iota // field == source
+	c03AtomFldNil             // field == nil
+	c03AtomSrcNil             // source == nil
+	c03AtomValEq              // *field == *source
+)
+
+type c03Form func(env int) (val, known bool)
+
+// form translates a branch condition into a formula over the atoms; known is
+// false for (sub)conditions that say nothing about field and source.
+func (ks *c03KS) form(v ssa.Value, pred map[*ssa.BasicBlock]*ssa.BasicBlock) c03Form {
+	unknown := func(int) (bool, bool) { return false, false }
+	atom := func(a int) c03Form { return func(env int) (bool, bool) { return env&a != 0, true } }
+	// resolve phis along the current path
+	for i := 0; i < 8; i++ {
+		phi, ok := v.(*ssa.Phi)
+		if !ok {
+			break
+		}
+		pb, ok := pred[phi.Block()]
+		if !ok {
+			return unknown
+		}
+		idx := -1
+		for k, q := range phi.Block().Preds {
+			if q == pb {
+				idx = k
+			}
+		}
+		if idx < 0 {
+			return unknown
+		}
+		v = phi.Edges[idx]
+	}
+	isFld := func(x ssa.Value, lvl int) bool { f, l := c03Level(x); return f == ks.fv && l == lvl }
+	isSrc := func(x ssa.Value, lvl int) bool {
+		if ks.srcField != nil {
+			f, l := c03Level(x)
+			return f == ks.srcField && l == lvl
+		}
+		if ks.srcConst != nil && lvl == 1 {
+			cv, ok := constOf(x)
+			return ok && !isNilConst(x) && constant.Compare(cv, token.EQL, ks.srcConst)
+		}
+		return false
+	}
+	switch x := v.(type) {
+	case *ssa.Const:
+		if cv, ok := constOf(x); ok && cv.Kind() == constant.Bool {
+			b := constant.BoolVal(cv)
+			return func(int) (bool, bool) { return b, true }
+		}
+	case *ssa.UnOp:
+		if x.Op == token.NOT {
+			f := ks.form(x.X, pred)
+			return func(env int) (bool, bool) { b, k := f(env); return !b, k }
+		}
+		// a bool field tested directly against a constant source
+		if isFld(x, 1) && ks.srcConst != nil && ks.srcConst.Kind() == constant.Bool {
+			want := constant.BoolVal(ks.srcConst)
+			return func(env int) (bool, bool) { return (env&c03AtomPtrEq != 0) == want, true }
+		}
+	case *ssa.BinOp:
+		if x.Op != token.EQL && x.Op != token.NEQ {
+			break
+		}
+		neg := x.Op == token.NEQ
+		wrap := func(f c03Form) c03Form {
+			return func(env int) (bool, bool) { b, k := f(env); return b != neg, k }
+		}
+		for _, o := range [][2]ssa.Value{{x.X, x.Y}, {x.Y, x.X}} {
+			switch {
+			case isFld(o[0], 1) && isSrc(o[1], 1):
+				return wrap(atom(c03AtomPtrEq))
+			case isFld(o[0], 2) && isSrc(o[1], 2):
+				return wrap(atom(c03AtomValEq))
+			case isFld(o[0], 1) && isNilConst(o[1]):
+				return wrap(atom(c03AtomFldNil))
+			case isSrc(o[0], 1) && isNilConst(o[1]) && ks.srcField != nil:
+				return wrap(atom(c03AtomSrcNil))
+			}
+		}
+		if b, ok := x.X.Type().Underlying().(*types.Basic); ok && b.Info()&types.IsBoolean != 0 {
+			fx, fy := ks.form(x.X, pred), ks.form(x.Y, pred)
+			return wrap(func(env int) (bool, bool) {
+				a, ka := fx(env)
+				b, kb := fy(env)
+				return a == b, ka && kb
+			})
+		}
+	}
+	return unknown
+}
+
+// describe renders a branch condition with the truth value it has on the path.
+func (ks *c03KS) describe(cond ssa.Value, val bool) string {
+	c, pol := stripNot(cond, val)
+	name := func(x ssa.Value) string {
+		if isNilConst(x) {
+			return "nil"
+		}
+		if f, l := c03Level(x); f != nil && (l == 1 || l == 2) {
+			pre := map[bool]string{true: "TierInfo.", false: "Tier."}[f == ks.fv]
+			if f != ks.fv && f != ks.srcField {
+				return path(x)
+			}
+			return strings.Repeat("*", l-1) + pre + f.Name()
+		}
+		return path(x)
+	}
+	if bo, ok := c.(*ssa.BinOp); ok && (bo.Op == token.EQL || bo.Op == token.NEQ) {
+		if _, isBool := bo.X.Type().Underlying().(*types.Basic); !isBool || bo.X.Type().Underlying().(*types.Basic).Info()&types.IsBoolean == 0 {
+			op := "=="
+			if (bo.Op == token.EQL) != pol {
+				op = "!="
+			}
+			return name(bo.X) + " " + op + " " + name(bo.Y)
+		}
+	}
+	if _, isPhi := c.(*ssa.Phi); isPhi {
+		return fmt.Sprintf("a previously computed comparison result is %v", pol)
+	}
+	if pol {
+		return name(c)
+	}
+	return "!(" + name(c) + ")"
+}
+
+// mentionsBoth: v is the result of a call that is handed both the field and the source.
+func (ks *c03KS) mentionsBoth(v ssa.Value) bool {
+	v, _ = stripNot(v, true)
+	call, ok := v.(*ssa.Call)
+	if !ok {
+		return false
+	}
+	var f, s bool
+	for _, a := range call.Common().Args {
+		if fv, l := c03Level(a); l == 1 {
+			if fv == ks.fv {
+				f = true
+			}
+			if ks.srcField != nil && fv == ks.srcField {
+				s = true
+			}
+		}
+	}
+	return f && s
+}
+
+// check enumerates the acyclic paths from entry to target.  It returns a
+// description of each distinct way target is reached without a store of the
+// field and without the branch conditions implying field == source.
+func (ks *c03KS) check(target ssa.Instruction) (bad, undecided []string) {
+	fn := ks.fn
+	tb := target.Block()
+	canReach := map[*ssa.BasicBlock]bool{}
+	for _, b := range fn.Blocks {
+		if b == tb || blockReach(b)[tb] {
+			canReach[b] = true
+		}
+	}
+	type edge struct {
+		cond ssa.Value
+		pol  bool
+	}
+	seenBad := map[string]bool{}
+	nPaths := 0
+	onPath := map[*ssa.BasicBlock]bool{}
+	pred := map[*ssa.BasicBlock]*ssa.BasicBlock{}
+	var forms []c03Form
+	var descs []string
+	opaque := false
+	var walk func(b *ssa.BasicBlock)
+	walk = func(b *ssa.BasicBlock) {
+		if nPaths > 20000 || onPath[b] || !canReach[b] || isPanicBlock(b) {
+			return
+		}
+		onPath[b] = true
+		defer func() { onPath[b] = false }()
+		for _, in := range b.Instrs {
+			if in == target {
+				nPaths++
+				// does the path imply equality?
+				for env := 0; env < 16; env++ {
+					pe, fn_, sn, ve := env&c03AtomPtrEq != 0, env&c03AtomFldNil != 0, env&c03AtomSrcNil != 0, env&c03AtomValEq != 0
+					// axioms
+					if pe && fn_ != sn {
+						continue
+					}
+					if ve && (fn_ || sn) {
+						continue
+					}
+					if ks.srcField == nil && (sn || ve) {
+						continue
+					}
+					consistent := true
+					for _, f := range forms {
+						if v, known := f(env); known && !v {
+							consistent = false
+							break
+						}
+					}
+					if !consistent {
+						continue
+					}
+					if pe || ve || (fn_ && sn) {
+						continue
+					}
+					d := "unconditionally"
+					if len(descs) > 0 {
+						d = "when " + strings.Join(descs, " and ")
+					}
+					if opaque {
+						if !seenBad["?"+d] {
+							seenBad["?"+d] = true
+							undecided = append(undecided, "the store is bypassed "+d+"; the comparison is made by a call this rule does not look into")
+						}
+					} else if !seenBad[d] {
+						seenBad[d] = true
+						bad = append(bad, d)
+					}
+					break
+				}
+				return
+			}
+			if ks.syncs[in] {
+				nPaths++
+				return // stored on this path: in sync from here on
+			}
+		}
+		if ifi, ok := b.Instrs[len(b.Instrs)-1].(*ssa.If); ok && len(b.Succs) == 2 {
+			for k, s := range b.Succs {
+				f := ks.form(ifi.Cond, pred)
+				want := k == 0
+				_, known := f(0)
+				savedOpaque := opaque
+				if known {
+					forms = append(forms, func(env int) (bool, bool) { v, kn := f(env); return v == want, kn })
+					descs = append(descs, ks.describe(ifi.Cond, want))
+				} else if ks.mentionsBoth(ifi.Cond) {
+					opaque = true
+				}
+				old, had := pred[s]
+				pred[s] = b
+				walk(s)
+				if had {
+					pred[s] = old
+				} else {
+					delete(pred, s)
+				}
+				if known {
+					forms = forms[:len(forms)-1]
+					descs = descs[:len(descs)-1]
+				}
+				opaque = savedOpaque
+			}
+			return
+		}
+		for _, s := range b.Succs {
+			old, had := pred[s]
+			pred[s] = b
+			walk(s)
+			if had {
+				pred[s] = old
+			} else {
+				delete(pred, s)
+			}
+		}
+	}
+	walk(fn.Blocks[0])
+	if nPaths > 20000 {
+		undecided = append(undecided, "too many paths")
+	}
+	if nPaths == 0 {
+		undecided = append(undecided, "no path reaches the insertion")
+	}
+	sort.Strings(bad)
+	return bad, undecided
 }
